@@ -8,6 +8,13 @@ ROOT = os.path.dirname(os.path.dirname(os.path.abspath(__file__)))
 
 # id -> (category, technique, text, note, design_ref)
 CHECKS = {
+    "C01": (
+        "exploration",
+        "reference-interpreter monitor on token-identifying output of generated component programs, three render routes, logical divergence guard on component instantiations, AST shrinker for witnesses",
+        "9k (quick) / 300k (thorough) generated programs (free growth + decorated skeletons of the hard compositions: slot in default content under a foreign component, fill forwarding 2-4 levels, one slot name filled at three levels, root chains, slots in loops with dynamic names; ~8% erroneous) are rendered by the real library in django and isolated mode through plain tags and through the dynamic component, plus Component.render(slots=str|func) for the first class; every output (or exception class) must equal the reference interpreter's; more than 20x the predicted component instantiations is reported as non-termination.",
+        "Trusts the ~300-line reference interpreter (vf/model/interp.py), written from the statement; programs the statement leaves open are skipped and counted.",
+        "DESIGN.md §2 C01, §1 E1, Appendix A/B",
+    ),
     "C16": (
         "exploration",
         "reference-model monitor over generated class hierarchies (real Component subclasses), access-order metamorphic monitor with fresh class objects per order, pair-rule model, module-based components with real files",
